@@ -7,12 +7,12 @@ open KV
 /-- everything the semantic argument uses about `h' = substitute h c m` in regular use, except the well-formedness of
     the result; `map` = `node_map` -/
 structure SubstPre (h : NNet) (c : Nat) (m : NNet) (sh : Shape) (dn : Nat) (map : Array (Option Nat)) (h' : NNet) : Prop where
-  hwf : WF h
+  hwf : WFr h
   mwf : WF m
   hc : c < h.net.nodes.size
   hio : c ∉ h.net.io
   shape : implShape m = some sh
-  des : sh.des = some dn
+  des : dn < m.net.nodes.size → sh.des = some dn
   -- side conditions on the implementation
   dnNotPort : dn ∉ m.net.io
   ioNodup : m.net.io.Nodup
@@ -34,7 +34,7 @@ structure SubstPre (h : NNet) (c : Nat) (m : NNet) (sh : Shape) (dn : Nat) (map 
   mapDom : ∀ j, j < m.net.nodes.size → ((map.getD j none).isSome ↔
     (j ∉ m.net.io ∨ (0 < (m.net.node j).ins.length ∧ 0 < (m.net.node j).outs.length) ∨
       ((m.net.node j).ins.length = 0 ∧ 1 < (m.net.node j).outs.length)))
-  mapDn : map.getD dn none = some c
+  mapDn : dn < m.net.nodes.size → map.getD dn none = some c
   kind' : ∀ j x, map.getD j none = some x →
     (h'.net.node x).kind = if j ∈ m.net.io then "__fork__" else (m.net.node j).kind
   -- lines
@@ -50,10 +50,16 @@ structure SubstPre (h : NNet) (c : Nat) (m : NNet) (sh : Shape) (dn : Nat) (map 
   newLine : ∀ t (ht : t < (copiedLines m map).length),
     h'.net.line (h.net.lines.size + t) = mkLine m map (copiedLines m map)[t]
 
-/-- … with the well-formedness of the result -/
+/-- … with the well-formedness of the result (`WFr`: without the reader-side back pointer; the host may hold lines that are
+    stale on the reader side, they stay as they are): the copied lines and every host line that points back in the host
+    point back in the result, and a host line at an input pin of the cell or of a new node is a line at an input pin of the
+    instance -/
 structure SubstCert (h : NNet) (c : Nat) (m : NNet) (sh : Shape) (dn : Nat) (map : Array (Option Nat)) (h' : NNet) : Prop
     extends SubstPre h c m sh dn map h' where
-  wf' : WF h'
+  wf' : WFr h'
+  backR : ∀ l, l < h'.net.lines.size → (h.net.lines.size ≤ l ∨ PtsBack h l) → PtsBack h' l
+  ownIns : ∀ x k l, (x = c ∨ h.net.nodes.size ≤ x) → (h'.net.node x).ins.getD k none = some l → l < h.net.lines.size →
+    ∃ k0, instIn h c k0 = some l
 
 /-! ### `inTarget` / `outTarget` by cases -/
 theorem inTarget_cases {m : NNet} {map : Array (Option Nat)} {inn r rp : Nat} (h : inTarget m map inn = some (r, rp)) :
